@@ -432,6 +432,9 @@ Definition render_eff (T : ptable) (E : list eff) (e : eff) : string :=
   (if a_dbg (e_acc e) then "dbg" else "-") ++ "|" ++ zstr (a_line (e_acc e)) ++ nl.
 Definition render_report (T : ptable) (S : list msummary) : list string :=
   let E := all_eff T S in
-  map render_viol (violations T S)
+  let V := violations T S in
+  (* effective accesses are listed only for the members that have a violation (to name the other end of the race) *)
+  let Ev := filter (fun e => existsb (fun v => seqb (v_class v) (e_class e) && seqb (v_what v) (a_field (e_acc e))) V) E in
+  map render_viol V
   ++ map (fun v => "O|" ++ v_class v ++ "|" ++ v_site v ++ "|" ++ v_what v ++ "|" ++ v_kind v ++ nl) (precheck_debug_reads T S)
-  ++ map (render_eff T E) E.
+  ++ ("N|" ++ zstr (Z.of_nat (List.length E)) ++ nl) :: map (render_eff T E) Ev.
